@@ -241,6 +241,57 @@ RESULT_PROPAGATORS = {
 }
 
 
+def _manual_question_mark(body, local):
+    """block of the switch if `local` (a Result) is only inspected by a match whose Err arm returns an error on every path and
+    whose other uses are projections of its payloads ((x as Ok).0 / (x as Err).0); else None"""
+    if 'Result<' not in body.locals[local]['ty'] and 'result::Result' not in body.locals[local]['ty']:
+        return None
+    dls = []
+    for bi, b in enumerate(body.blocks):
+        if b['cleanup'] or bi not in body.cfg.reach:
+            continue
+        for st in b['stmts']:
+            if st['k'] == 'assign' and st['rv']['k'] == 'discr' and st['rv']['p']['l'] == local and not st['rv']['p']['p']:
+                dls.append((bi, st['p']['l']))
+    if not dls:
+        return None
+    # drop elaboration re-reads the discriminant inside the arms: the match proper is the read that dominates the others
+    top = [d for d in dls if all(body.cfg.dominates(d[0], o[0]) for o in dls)]
+    if len(top) != 1:
+        return None
+    bi, dl = top[0]
+    sw = None
+    for bj, b in enumerate(body.blocks):
+        t = b['term']
+        if t and t['k'] == 'switch' and t['discr'].get('k') in ('copy', 'move') and t['discr']['p']['l'] == dl and not t['discr']['p']['p']:
+            sw = bj
+    if sw is None:
+        return None
+    t = body.blocks[sw]['term']
+    err_edges = [s_ for v_, s_ in t['targets'] if v_ == 1] or ([t['otherwise']] if any(v_ == 0 for v_, _ in t['targets']) else [])
+    if not err_edges or not all(arm_always_err(body, e_) for e_ in err_edges):
+        return None
+    # every other use reads a payload through a downcast
+    for bj, b in enumerate(body.blocks):
+        if b['cleanup'] or bj not in body.cfg.reach:
+            continue
+        for st in b['stmts']:
+            if st['k'] != 'assign':
+                continue
+            for p_ in [o['p'] for o in rv_operands(st['rv']) if o.get('k') in ('copy', 'move')] + list(rv_places(st['rv'])):
+                if p_['l'] == local:
+                    if st['rv']['k'] == 'discr':
+                        continue
+                    if not (p_['p'] and p_['p'][0].get('k') == 'downcast'):
+                        return None
+        tt = b['term']
+        if tt and tt['k'] == 'call':
+            for a in tt['args']:
+                if a.get('k') in ('copy', 'move') and a['p']['l'] == local and not (a['p']['p'] and a['p']['p'][0].get('k') == 'downcast'):
+                    return None
+    return sw
+
+
 def result_fates(body, local, seen=None):
     """where does the Result held in `local` end up?  returns list of (fate, bb, span)
     fate in: try / returned / combinator:<callee> (followed) / consumed:<callee> / matched / dropped / field-read"""
@@ -251,6 +302,10 @@ def result_fates(body, local, seen=None):
     seen.add(local)
     out = []
     us = uses(body, local)
+    mq = _manual_question_mark(body, local)
+    if mq is not None:
+        # `match r { Ok(v) => v, Err(e) => return Err(..) }`: the hand-written form of `r?`
+        return [('try', mq, body.blocks[mq]['term'].get('span'))]
     real = [u for u in us if u[0] != 'drop']
     if local == 0:
         out.append(('returned', None, body.span))
